@@ -89,6 +89,7 @@ class Seams:
         c.io_seq = 0
         c.writes = []
         c.reads = []
+        c.open_log = []
         c.faults = {f["io_seq"]: f for f in faults if f["kind"] in ("open-fail", "read-fail", "write-torn")}
         c.list_fault = next((f for f in faults if f["kind"] == "list-fail"), None)
 
@@ -153,6 +154,7 @@ class Seams:
                 # every planned fault fires exactly once
                 fired = "open-fail"
         self.log("open", relp, mode, fired or "-")
+        c.open_log.append("w" if writing else ("rb" if "b" in mode else "r"))
         if writing:
             self.stats["opens_write"] += 1
             c.writes.append(relp)
